@@ -10,6 +10,11 @@ class HarnessError(Exception):
     """The harness (not the code under test) misbehaved: exit 2."""
 
 
+class Livelock(Exception):
+    """The closed, deterministic world did not reach quiescence within the
+    step cap: the code under test is spinning (reported as a violation)."""
+
+
 class Ctx:
     def __init__(self, pid, tier, seed, repo, workers, here):
         self.pid = pid
@@ -210,3 +215,8 @@ def validate_evidence(path):
     if r.returncode != 0:
         return False, (r.stdout + r.stderr)[-600:]
     return True, ''
+
+
+def livelock_violation(impl, exc, replay, trigger='case'):
+    return Violation({'impl': impl, 'kind': 'livelock', 'trigger': trigger},
+                     '[%s] %s  replay=%s' % (impl, exc, dumps(replay, sort_keys=True)[:300]), replay)
